@@ -182,7 +182,12 @@ class LimbBody:
             for si, s in enumerate(blk["stmts"]):
                 if s["k"] != "assign" or "deref" not in s["p"]["proj"]:
                     continue
-                dst = org.of_place({"l": s["p"]["l"], "proj": []}, bi, si)
+                pr = s["p"]["proj"]
+                if len(pr) == 2 and pr[0] == "deref" and isinstance(pr[1], dict) and "i" in pr[1]:
+                    # a store into an element of a slice (`v[i] = x` with v: &mut [u32], e.g. in a helper that was handed `&mut v`)
+                    dst = ("index", org.of_place({"l": s["p"]["l"], "proj": []}, bi, si), org.of_place({"l": pr[1]["i"], "proj": []}, bi, si))
+                else:
+                    dst = org.of_place({"l": s["p"]["l"], "proj": []}, bi, si)
                 c = cell_of(dst)
                 if c is None or c[0] != "V":
                     continue
